@@ -138,7 +138,8 @@ class C14(Prop):
             'q != 0, 1), up to 2k+3 terms, truncated to the prefix whose terms are exactly representable. '
             'random: free / uniform / constant / repeats / alternating / slowly convergent / float geometric '
             '(runs into full convergence) / noisy / small integers / converge-then-jump, magnitudes '
-            '10^U(-10,10), lengths 1..200; limexp in 3..60 with 3..9 and 3..15 over-weighted. EpsAlg is compared '
+            '10^U(-10,10) (terms below 1e-150 are flushed to 0: underflow range excluded), lengths 1..200; limexp '
+            'in 3..60 with 3..9 and 3..15 over-weighted. EpsAlg is compared '
             'with the exact table on the first 10 terms of every stream. Non-trivial = (EpsAlg) some term '
             'index n >= 4 asserted with B <= 1e-6 |value|, or (Dea) the table filled (n == limexp - 1 before a '
             'call), was reset, or the all-converged branch was reachable (last three table entries equal to '
@@ -146,6 +147,8 @@ class C14(Prop):
     assumptions = ('python fractions.Fraction arithmetic is exact',
                    'B bounds the error of fl(a + fl(1/fl(x - y))) per table entry rigorously (entries whose '
                    'perturbed difference could lose half its size get B = inf and are not asserted)',
+                   'third term Dea vs dea3: tolerance 8 T + 2.2e-308 (dea3 replaces differences below the '
+                   'smallest normal number by it, Dea does not)',
                    'Dea._n / Dea.epstab / Dea.limexp are read for classification (table full, reset, '
                    'convergence) and for finding_key only, never for the verdict')
     constants = {'TINY_ABS': TINY, 'C_EPSALG': C_EPSALG, 'C_DEA3': C_DEA3, 'C_DEA_EPSALG': C_DEA_EPSALG, 'FLOOR': FLOOR,
